@@ -30,7 +30,7 @@ fn merge(datagrams: &[Vec<u8>]) -> Vec<u8> {
     out
 }
 
-async fn content_filter(ctx: Ctx, expr: &'static str, param: &'static str, pass_value: (i32, &'static str), fail_value: (i32, &'static str), reliable: bool) {
+async fn content_filter(ctx: Ctx, expr: &'static str, param: &'static str, pass_value: (i32, &'static str), fail_value: (i32, &'static str), reliable: bool, n: usize) {
     let f = ctx.factory("", None);
     let n1 = node::<FilterData>(&f, 0, "T").await;
     let n2 = node::<FilterData>(&f, 0, "T").await;
@@ -50,8 +50,18 @@ async fn content_filter(ctx: Ctx, expr: &'static str, param: &'static str, pass_
         return;
     }
     // which of the three samples pass the filter, and how the three DATA datagrams are grouped on arrival
-    let pattern = ctx.choose(b'O', 8);
-    let grouping = ctx.choose(b'O', 4); // 0 separate, 1 all three merged, 2 first two merged, 3 last two merged
+    // pattern: bit i = sample i passes; grouping: bit i = datagram i+1 arrives in the same datagram as datagram i (all
+    // compositions of n)
+    let pattern = ctx.choose(b'O', 1 << n);
+    let grouping = ctx.choose(b'O', 1 << (n - 1));
+    let mut groups: Vec<Vec<usize>> = vec![vec![0]];
+    for i in 1..n {
+        if grouping & (1 << (i - 1)) != 0 {
+            groups.last_mut().unwrap().push(i);
+        } else {
+            groups.push(vec![i]);
+        }
+    }
     let stash: Rc<RefCell<Vec<Vec<u8>>>> = Rc::new(RefCell::new(vec![]));
     if grouping != 0 {
         let st = stash.clone();
@@ -66,7 +76,7 @@ async fn content_filter(ctx: Ctx, expr: &'static str, param: &'static str, pass_
         });
     }
     let mut expected = vec![];
-    for i in 0..3u32 {
+    for i in 0..n as u32 {
         let pass = pattern & (1 << i) != 0;
         let (x, s) = if pass { pass_value } else { fail_value };
         w.write(FilterData { id: 1 + (i % 2) as u8, x, s: s.to_string(), seq: i }, None).await.expect("write");
@@ -93,31 +103,23 @@ async fn content_filter(ctx: Ctx, expr: &'static str, param: &'static str, pass_
         readers.dedup();
         for rd in readers {
             let ds: Vec<Vec<u8>> = uniq.iter().filter(|u| u.0 % 1000 == rd).map(|u| u.1.clone()).collect();
-            if ds.len() != 3 {
-                ctx.violation("setup/unexpected-datagrams", format!("expected 3 DATA datagrams per reader, stashed {}", ds.len()));
+            if ds.len() != n {
+                ctx.violation("setup/unexpected-datagrams", format!("expected {n} DATA datagrams per reader, stashed {}", ds.len()));
                 return;
             }
-            match grouping {
-                1 => ctx.inject(1, merge(&ds)),
-                2 => {
-                    ctx.inject(1, merge(&ds[0..2]));
-                    ctx.inject(1, ds[2].clone());
-                }
-                _ => {
-                    ctx.inject(1, ds[0].clone());
-                    ctx.inject(1, merge(&ds[1..3]));
-                }
+            for g in &groups {
+                ctx.inject(1, merge(&ds[g[0]..=*g.last().unwrap()]));
             }
         }
     }
     ctx.sleep_ms(600).await;
     let got: Vec<u32> = take_all(&r).await.iter().filter_map(|s| s.data.as_ref().map(|d| d.seq)).collect();
     let got_all: Vec<u32> = take_all(&r_all).await.iter().filter_map(|s| s.data.as_ref().map(|d| d.seq)).collect();
-    ctx.obs(format!("pattern={pattern:03b} grouping={grouping} filtered={got:?} plain={got_all:?}"));
+    let gname = groups.iter().map(|g| g.len().to_string()).collect::<Vec<_>>().join("+");
+    ctx.obs(format!("pattern={pattern:03b} grouping={gname} filtered={got:?} plain={got_all:?}"));
     let mut g = got.clone();
     g.sort();
-    let gname = ["separate", "all-merged", "first-two-merged", "last-two-merged"][grouping];
-    if got_all.len() != 3 {
+    if got_all.len() != n {
         ctx.violation(format!("plain-reader-lost-samples/{gname}"), format!("the unfiltered control reader got {got_all:?}"));
     }
     for e in &expected {
@@ -195,9 +197,25 @@ pub fn c26(_args: &Args) -> Vec<Scenario> {
         ("str-eq", "s = %0", "RED", (0, "RED"), (0, "BLUE")),
         ("str-le", "s <= %0", "M", (0, "A"), (0, "Z")),
         ("str-eq-empty", "s = %0", "", (0, ""), (0, "x")),
+        // spelling of the expression, range ends, prefixes and case (string comparison is by code point)
+        ("int-le-no-spaces", "x<=%0", "5", (5, "a"), (6, "a")),
+        ("int-eq-no-spaces", "x=%0", "5", (5, "a"), (4, "a")),
+        ("int-le-min", "x <= %0", "-2147483648", (i32::MIN, "a"), (i32::MIN + 1, "a")),
+        ("int-le-max", "x <= %0", "2147483646", (2147483646, "a"), (i32::MAX, "a")),
+        ("int-eq-zero", "x = %0", "0", (0, "a"), (-1, "a")),
+        ("int-le-negative", "x <= %0", "-1", (-2, "a"), (0, "a")),
+        ("str-le-prefix", "s <= %0", "AB", (0, "A"), (0, "ABA")),
+        ("str-le-equal", "s <= %0", "AB", (0, "AB"), (0, "B")),
+        ("str-eq-case", "s = %0", "red", (0, "red"), (0, "RED")),
+        ("str-eq-prefix", "s = %0", "RED", (0, "RED"), (0, "REDS")),
+        ("str-le-non-ascii", "s <= %0", "z", (0, "a"), (0, "\u{e9}")),
     ] {
+        let thorough = std::env::args().any(|a| a == "thorough");
         for reliable in [true, false] {
-            v.push(Scenario::new(format!("C26.filter[{name},reliable={reliable}]"), 99, move |ctx| content_filter(ctx, expr, param, pass, fail, reliable)));
+            let ns: &[usize] = if thorough { &[3, 4, 5] } else { &[3, 4] };
+            for &n in ns {
+                v.push(Scenario::new(format!("C26.filter[{name},reliable={reliable},samples={n}]"), 99, move |ctx| content_filter(ctx, expr, param, pass, fail, reliable, n)));
+            }
         }
     }
     v
@@ -343,6 +361,10 @@ impl dust_dds::dds_async::data_reader_listener::DataReaderListener<KeyedData> fo
         self.0.lock().unwrap().push("reader:sample_rejected".into());
         core::future::ready(())
     }
+    fn on_requested_deadline_missed(&mut self, _r: DataReaderAsync<KeyedData>, _s: dust_dds::infrastructure::status::RequestedDeadlineMissedStatus) -> impl std::future::Future<Output = ()> + Send {
+        self.0.lock().unwrap().push("reader:requested_deadline_missed".into());
+        core::future::ready(())
+    }
 }
 struct SL(Log);
 impl dust_dds::dds_async::subscriber_listener::SubscriberListener for SL {
@@ -366,6 +388,10 @@ impl dust_dds::dds_async::subscriber_listener::SubscriberListener for SL {
         self.0.lock().unwrap().push("subscriber:sample_rejected".into());
         core::future::ready(())
     }
+    fn on_requested_deadline_missed(&mut self, _r: DataReaderAsync<()>, _s: dust_dds::infrastructure::status::RequestedDeadlineMissedStatus) -> impl std::future::Future<Output = ()> + Send {
+        self.0.lock().unwrap().push("subscriber:requested_deadline_missed".into());
+        core::future::ready(())
+    }
 }
 struct PL(Log);
 impl dust_dds::dds_async::domain_participant_listener::DomainParticipantListener for PL {
@@ -385,6 +411,10 @@ impl dust_dds::dds_async::domain_participant_listener::DomainParticipantListener
         self.0.lock().unwrap().push("participant:sample_rejected".into());
         core::future::ready(())
     }
+    fn on_requested_deadline_missed(&mut self, _r: DataReaderAsync<()>, _s: dust_dds::infrastructure::status::RequestedDeadlineMissedStatus) -> impl std::future::Future<Output = ()> + Send {
+        self.0.lock().unwrap().push("participant:requested_deadline_missed".into());
+        core::future::ready(())
+    }
 }
 
 const EVENTS: &[(&str, StatusKind)] = &[
@@ -392,6 +422,7 @@ const EVENTS: &[(&str, StatusKind)] = &[
     ("subscription_matched", StatusKind::SubscriptionMatched),
     ("requested_incompatible_qos", StatusKind::RequestedIncompatibleQos),
     ("sample_rejected", StatusKind::SampleRejected),
+    ("requested_deadline_missed", StatusKind::RequestedDeadlineMissed),
 ];
 
 /// subscriber side: listener presence (3 bits) x mask enabling the status at each level (3 bits) x event
@@ -430,6 +461,12 @@ async fn listeners(ctx: Ctx, event: usize) {
         rq.resource_limits.max_samples_per_instance = dust_dds::infrastructure::qos_policy::Length::Limited(1);
     }
     let mut wq = reliable_w(HistoryQosPolicyKind::KeepAll, Some(100));
+    if event == 4 {
+        // one sample, then silence for one and a half periods: exactly one period is missed inside the observation window
+        let d = dust_dds::infrastructure::qos_policy::DeadlineQosPolicy { period: DurationKind::Finite(Duration::new(0, 200_000_000)) };
+        rq.deadline = d.clone();
+        wq.deadline = d;
+    }
     if event == 2 {
         // writer offers VOLATILE, reader requests TRANSIENT_LOCAL: incompatible
         rq.durability.kind = DurabilityQosPolicyKind::TransientLocal;
@@ -455,6 +492,10 @@ async fn listeners(ctx: Ctx, event: usize) {
         }
         ctx.sleep_ms(400).await;
     }
+    if event == 4 {
+        w.write(sample(1, 0, 8), None).await.expect("write");
+        ctx.sleep_ms(320).await;
+    }
     let _ = &r;
     let l: Vec<String> = log.lock().unwrap().clone();
     let relevant: Vec<&String> = l
@@ -463,6 +504,7 @@ async fn listeners(ctx: Ctx, event: usize) {
             0 => x.contains("data_"),
             1 => x.ends_with("subscription_matched"),
             2 => x.ends_with("requested_incompatible_qos"),
+            4 => x.ends_with("requested_deadline_missed"),
             _ => x.ends_with("sample_rejected"),
         })
         .collect();
